@@ -165,6 +165,24 @@ theorem forRange_block_at {α : Type} (b : Nat) (body : Attr α → Nat → Attr
       · have : ¬ j / b < n + 1 := by omega
         simp [h1, this]
 
+/-- entry `j` of a concatenation of blocks of three -/
+theorem flatMap3_get {α β : Type} (g : β → List α) (hg : ∀ x, (g x).length = 3) : ∀ (l : List β) (j : Nat),
+    (l.flatMap g)[j]? = (l[j / 3]?).bind (fun x => (g x)[j % 3]?) := by
+  intro l
+  induction l with
+  | nil => intro j; simp
+  | cons x xs ih =>
+    intro j
+    rw [List.flatMap_cons]
+    by_cases hj : j < 3
+    · have h0 : j / 3 = 0 := by omega
+      have h1 : j % 3 = j := by omega
+      rw [List.getElem?_append_left (by rw [hg]; exact hj), h0, h1]; simp
+    · have h3 : (g x).length ≤ j := by rw [hg]; omega
+      have h0 : j / 3 = (j - 3) / 3 + 1 := by omega
+      have h1 : j % 3 = (j - 3) % 3 := by omega
+      rw [List.getElem?_append_right h3, hg, ih, h0, h1, List.getElem?_cons_succ]
+
 /-! ### loops that write at a running counter (`a[c] = g(i); c += 1`) -/
 
 /-- `for i in range(n): a[c] = g(i); c += 1` fills the block `c .. c+n-1` -/
